@@ -72,6 +72,16 @@ func genC04(e *emitter, r *rng, thorough bool) {
 	for _, l := range []int{255, 256, 257, 256 + 15, 256 + 16, 256 + 32, 256 + 64, 256 + 65, 512 + 32, 768 + 16, 65536 + 32} {
 		e.emit(fmt.Sprintf("master.aliaslen%d", l), xkLine("seed:"+hx(r.bytes(l))+":0", []string{"c0:0"}))
 	}
+	// sweeps over hundreds of normal children on both derivation routes (1 public key in 256 has an X with a
+	// leading zero byte, 1 scalar in 256 is short); nets 0/1 only (the sweep op knows MainNet and TestNet)
+	nsw := 3
+	if thorough {
+		nsw = 30
+	}
+	e.emit("sweep.vector1", "xk.sweep 000102030405060708090a0b0c0d0e0f 0 0 400")
+	for i := 0; i < nsw; i++ {
+		e.emit("sweep", fmt.Sprintf("xk.sweep %s %d %d 300", hx(r.bytes(16+r.intn(49))), r.intn(2), r.intn(1<<30)))
+	}
 	// BIP32 test vector seeds
 	tv := []string{"000102030405060708090a0b0c0d0e0f",
 		"fffcf9f6f3f0edeae7e4e1dedbd8d5d2cfccc9c6c3c0bdbab7b4b1aeaba8a5a29f9c999693908d8a8784817e7b7875726f6c696663605d5a5754514e4b484542",
@@ -441,6 +451,11 @@ func genC07(e *emitter, r *rng, thorough bool) {
 		ent := r.bytes([]int{16, 20, 24, 28, 32}[r.intn(5)])
 		p := passes[r.intn(len(passes))]
 		e.emit("mn.rand", "bip39.mn "+hx(ent)+" "+hx(p))
+	}
+	// the same sentence with different passphrases in consecutive calls, through both entry points
+	for i := 0; i < 4; i++ {
+		ent := r.bytes([]int{16, 24, 32, 20}[i])
+		e.emit("seq.passphrases", "bip39.seq "+hx(ent)+" "+strings.Join([]string{hx([]byte("alpha")), hx([]byte("beta")), "-", hx([]byte("alpha")), hx([]byte("TREZOR"))}, ","))
 	}
 	// every list word in some sentence: 2048 words / 12 per sentence
 	words := bip39.English
